@@ -158,10 +158,19 @@ pub fn sampled_days(seed: u64, n: usize) -> Vec<i32> {
     for (y, m, d) in [(1999, 12, 31), (2000, 1, 1), (2000, 2, 29), (2000, 12, 31), (1900, 12, 31), (9999, 12, 25), (9999, 12, 29), (9998, 12, 31), (2021, 1, 4), (2024, 12, 30)] {
         v.push(c.lookup(y, m, d).unwrap());
     }
+    // days on which a count in some derived unit crosses +-2^k (i32 seconds, 2^53 us, ...)
+    for d in pools::binary_boundary_days(n > 40) {
+        if c.in_range(d as i64) {
+            v.push(d);
+        }
+    }
     let mut sm = SplitMix(seed ^ 0x5a);
-    while v.len() < n {
+    let target = v.len() + n.saturating_sub(20);
+    while v.len() < target {
         v.push(c.first + sm.below(c.len() as u64) as i32);
     }
+    v.sort();
+    v.dedup();
     v
 }
 
